@@ -115,7 +115,7 @@ func TestVP_C23_history(t *testing.T) {
 	c := kit.New(t, "C23", "rapid T.Repeat on a fresh store per history: 3..10 payloads with 1..3 differently signed bodies each; ops queue/store/retrieve(limit in {0,1,2,3,255,1000})/remove(1..4 hashes, also never-seen ones)/get; after every op the history invariants R1..R5 of the design are evaluated against counters kept per payload hash (not a copy of the implementation: retrieval content and order are never predicted); non-trivial = history with a retrieval while a store-only hash exists, a requeue after a retrieval and a removal; distinct by the op trace")
 	c.Require("retrieve-with-store-only", "requeue-after-return", "remove", "requeue-returned-again", "limit-binding", "alt-body", "get-after-remove-nil", "queue-after-remove")
 	c.Assume("CacheTTL (7200 s) never elapses during a history", "single-threaded histories: any error from a cache call is a failure")
-	kit.SetChecks(kit.N(1200, 12000))
+	kit.SetChecks(kit.N(1000, 12000))
 	kit.SetSteps(40)
 	var caseNo int64
 	shared := vpC23OpenStore(t)
@@ -334,20 +334,29 @@ func TestVP_C23_history(t *testing.T) {
 // one test, so that every case starts from an empty cache (opening a new Badger
 // directory per case costs ~0.2 s).
 func vpC23Fresh(t *rapid.T, s *BadgerStore) *BadgerStore {
-	if err := s.cacheDB.DropAll(); err != nil {
-		t.Fatalf("DropAll: %v", err)
-	}
-	n := 0
-	_ = s.cacheDB.View(func(txn *badger.Txn) error {
-		it := txn.NewIterator(badger.DefaultIteratorOptions)
+	var keys [][]byte
+	err := s.cacheDB.View(func(txn *badger.Txn) error {
+		opts := badger.DefaultIteratorOptions
+		opts.PrefetchValues = false
+		it := txn.NewIterator(opts)
 		defer it.Close()
 		for it.Rewind(); it.Valid(); it.Next() {
-			n++
+			keys = append(keys, it.Item().KeyCopy(nil))
 		}
 		return nil
 	})
-	if n != 0 {
-		t.Fatalf("cache database not empty after DropAll: %d keys", n)
+	if err == nil && len(keys) > 0 {
+		err = s.cacheDB.Update(func(txn *badger.Txn) error {
+			for _, k := range keys {
+				if err := txn.Delete(k); err != nil {
+					return err
+				}
+			}
+			return nil
+		})
+	}
+	if err != nil {
+		t.Fatalf("emptying the cache database: %v", err)
 	}
 	return s
 }
@@ -397,7 +406,7 @@ func TestVP_C23_concurrent(t *testing.T) {
 	c := kit.New(t, "C23", "rapid: 4..10 payloads (the first 0..3 may be removed, the others never), op lists of 5..25 ops drawn up front for each of 2..8 goroutines, run concurrently on one store (build with -race); a call that returns an error (badger.ErrConflict after the built-in retries) counts as not done / returned nothing; judged: R1 per retrieval, R2 totals (returns <= queue attempts, never-queued never returned), R4 bodies, get on never-removed hashes never loses a submitted body, and a quiescent drain returns every hash whose last successful queue call started after every return of it, each at most once, and a second drain is empty; non-trivial = at least one hash returned by two different goroutines' retrievals or a conflict error observed; distinct by per-goroutine op lists")
 	c.Require("multi-return", "drained")
 	c.Assume("each cache call is one Badger transaction; interleavings inside a call are whatever the scheduler produced, not enumerated")
-	kit.SetChecks(kit.N(100, 600))
+	kit.SetChecks(kit.N(60, 600))
 	var caseNo int64
 	shared := vpC23OpenStore(t)
 	rapid.Check(t, func(t *rapid.T) {
